@@ -297,6 +297,11 @@ func Eq(a, b *Term) *Term {
 			return Not(a)
 		}
 	}
+	if a.S.K == SBV && (linOp(a) || linOp(b)) {
+		if d := bin("bvsub", a, b); d.IsConst() {
+			return BoolC(d.Val == 0)
+		}
+	}
 	// zext(x) == const with high bits set  -> false ; zext(x)==zext(y)
 	if a.IsConst() {
 		a, b = b, a
@@ -406,6 +411,11 @@ func bin(op string, a, b *Term) *Term {
 			return Const(w, r)
 		}
 	}
+	if (op == "bvadd" || op == "bvsub") && (linOp(a) || linOp(b)) {
+		if r := linNormal(op, a, b); r != nil {
+			return r
+		}
+	}
 	switch op {
 	case "bvadd":
 		if a.IsConst() {
@@ -512,6 +522,120 @@ func bin(op string, a, b *Term) *Term {
 	}
 	return mk(&Term{Op: op, Args: []*Term{a, b}, S: a.S})
 }
+
+// ---- linear normal form of sums (modular arithmetic, so sound for every width) ----
+
+func linOp(t *Term) bool {
+	switch t.Op {
+	case "bvadd", "bvsub", "bvneg":
+		return true
+	case "bvmul":
+		return t.Args[0].IsConst() || t.Args[1].IsConst()
+	}
+	return false
+}
+
+type linForm struct {
+	coef  map[*Term]uint64
+	atoms []*Term
+	c     uint64
+	nodes int
+}
+
+func (lf *linForm) add(t *Term, k uint64) {
+	lf.nodes++
+	if lf.nodes > 400 {
+		return
+	}
+	switch t.Op {
+	case "const":
+		lf.c += k * t.Val
+		return
+	case "bvadd":
+		lf.add(t.Args[0], k)
+		lf.add(t.Args[1], k)
+		return
+	case "bvsub":
+		lf.add(t.Args[0], k)
+		lf.add(t.Args[1], -k)
+		return
+	case "bvneg":
+		lf.add(t.Args[0], -k)
+		return
+	case "bvmul":
+		if t.Args[1].IsConst() {
+			lf.add(t.Args[0], k*t.Args[1].Val)
+			return
+		}
+		if t.Args[0].IsConst() {
+			lf.add(t.Args[1], k*t.Args[0].Val)
+			return
+		}
+	}
+	if _, ok := lf.coef[t]; !ok {
+		lf.atoms = append(lf.atoms, t)
+	}
+	lf.coef[t] += k
+}
+
+// linNormal rebuilds a op b as (p1 + p2 + ... - n1 - n2 ...) + c with the atoms ordered by term id, coefficients
+// other than +-1 as multiplications by a constant; nil when the sum is too large to be worth it.
+func linNormal(op string, a, b *Term) *Term {
+	w := a.S.W
+	lf := &linForm{coef: map[*Term]uint64{}}
+	lf.add(a, 1)
+	if op == "bvadd" {
+		lf.add(b, 1)
+	} else {
+		lf.add(b, ^uint64(0))
+	}
+	if lf.nodes > 400 || len(lf.atoms) > 16 {
+		return nil
+	}
+	m := mask(w)
+	sort.Slice(lf.atoms, func(i, j int) bool { return lf.atoms[i].id < lf.atoms[j].id })
+	var pos, neg []*Term
+	for _, t := range lf.atoms {
+		k := lf.coef[t] & m
+		if k == 0 {
+			continue
+		}
+		if k == 1 {
+			pos = append(pos, t)
+		} else if k == m {
+			neg = append(neg, t)
+		} else if k > m/2 {
+			neg = append(neg, rawBin("bvmul", t, Const(w, -k)))
+		} else {
+			pos = append(pos, rawBin("bvmul", t, Const(w, k)))
+		}
+	}
+	var acc *Term
+	for _, t := range pos {
+		if acc == nil {
+			acc = t
+		} else {
+			acc = rawBin("bvadd", acc, t)
+		}
+	}
+	for _, t := range neg {
+		if acc == nil {
+			acc = mk(&Term{Op: "bvneg", Args: []*Term{t}, S: t.S})
+		} else {
+			acc = rawBin("bvsub", acc, t)
+		}
+	}
+	c := lf.c & m
+	if acc == nil {
+		return Const(w, c)
+	}
+	if c != 0 {
+		acc = rawBin("bvadd", acc, Const(w, c))
+	}
+	return acc
+}
+
+func rawBin(op string, a, b *Term) *Term { return mk(&Term{Op: op, Args: []*Term{a, b}, S: a.S}) }
 
 func Add(a, b *Term) *Term  { return bin("bvadd", a, b) }
 func Sub(a, b *Term) *Term  { return bin("bvsub", a, b) }
